@@ -16,9 +16,10 @@ EXTENDS GCPMEGhost, Json
 
 CONSTANTS MaxDepth, Endpoints, OptSets, MaxRpc, Ticks   \* Ticks: clock advances offered as inputs (no effect without timers)
 
-VARIABLES alive, closed, mes, def, pools, up, cur, conns, g, ev, hist
+VARIABLES alive, closed, mes, def, pools, up, cur, conns, g, ev, hist,
+          pmes      \* history variable: the MultiEndpoints of the option set accepted before the current one
 mvars == <<alive, closed, mes, def, pools, up, cur, conns>>
-vars == <<mvars, g, ev, hist>>
+vars == <<mvars, g, ev, hist, pmes>>
 
 \* OptSets is a set of indices into the catalogue of option sets below (kept small and explicit)
 L(a) == <<a>>
@@ -31,12 +32,13 @@ Catalogue == <<
   [mes |-> <<[name |-> "m1", eps |-> <<"a", "b">>]>>, def |-> "m2"],                                      \* default without options
   [mes |-> <<[name |-> "m1", eps |-> <<>>]>>, def |-> "m1"],                                              \* empty list (existing or new name)
   [mes |-> <<[name |-> "m1", eps |-> <<"b">>], [name |-> "m3", eps |-> <<>>]>>, def |-> "m1"],            \* one good entry, one empty
-  [mes |-> <<[name |-> "m1", eps |-> <<"b", "c", "a">>], [name |-> "m2", eps |-> <<"a">>]>>, def |-> "m1"]
+  [mes |-> <<[name |-> "m1", eps |-> <<"b", "c", "a">>], [name |-> "m2", eps |-> <<"a">>]>>, def |-> "m1"],
+  [mes |-> <<[name |-> "m1", eps |-> <<"a", "b", "c">>]>>, def |-> "m1"]                                  \* 10: option set 1 is this list without its tail
 >>
 
 Init ==
   /\ alive = FALSE /\ closed = FALSE /\ mes = <<>> /\ def = "" /\ pools = {} /\ up = Endpoints
-  /\ cur = <<>> /\ conns = <<>>
+  /\ cur = <<>> /\ conns = <<>> /\ pmes = <<>>
   /\ g = GGInit
   /\ ev = [op |-> "reset"]
   /\ hist = <<>>
@@ -77,7 +79,7 @@ Configure(op, k, fd) ==
      IF badDefault \/ badList
      THEN \* rejected before anything is touched (a failed construction releases everything)
           /\ Commit([e0 EXCEPT !.res = "ERR", !.pools = SetToSeq(pools)], inp)
-          /\ UNCHANGED mvars
+          /\ UNCHANGED <<mvars, pmes>>
      ELSE IF dialFails
      THEN \* the pools dialled before the failing dial stay (update) or are closed again (construction)
           \E S \in {T \in SUBSET newEps : Cardinality(T) = fd - 1} :
@@ -90,13 +92,13 @@ Configure(op, k, fd) ==
                /\ Commit([e0 EXCEPT !.res = "ERR", !.conns = cs2,
                                     !.dials = [i \in DOMAIN dl |-> [e |-> dl[i], ok |-> TRUE]] \o <<[e |-> failedAt, ok |-> FALSE]>>,
                                     !.pools = SetToSeq(IF op = "new" THEN {} ELSE pools \cup S)], inp)
-               /\ UNCHANGED <<alive, closed, mes, def, up, cur>>
+               /\ UNCHANGED <<alive, closed, mes, def, up, cur, pmes>>
      ELSE LET dl == SetToSeq(newEps)
               cs2 == CloseConns(conns, pools \ Mentioned(o.mes)) \o [i \in DOMAIN dl |-> [e |-> dl[i], shut |-> FALSE]]
               keptAvail == up \cap pools \cap Mentioned(o.mes)
               r0 == MechRoutes(cur, o.mes, keptAvail)
               r1 == MechRoutes(r0, o.mes, up \cap Mentioned(o.mes))
-          IN /\ alive' = TRUE /\ mes' = o.mes /\ def' = o.def /\ pools' = Mentioned(o.mes) /\ cur' = r1 /\ conns' = cs2
+          IN /\ alive' = TRUE /\ mes' = o.mes /\ def' = o.def /\ pools' = Mentioned(o.mes) /\ cur' = r1 /\ conns' = cs2 /\ pmes' = mes
              /\ Commit([e0 EXCEPT !.conns = cs2, !.dials = [i \in DOMAIN dl |-> [e |-> dl[i], ok |-> TRUE]],
                                   !.pools = SetToSeq(Mentioned(o.mes)), !.routes0 = r0, !.routes = r1], inp)
              /\ UNCHANGED <<closed, up>>
@@ -108,7 +110,7 @@ Flip(e, toUp) ==
          op == IF toUp THEN "up" ELSE "down"
      IN /\ cur' = r
         /\ Commit([BaseEv(op) EXCEPT !.e = e, !.routes0 = cur, !.routes = r, !.pools = SetToSeq(pools)], [op |-> op, e |-> e])
-  /\ UNCHANGED <<alive, closed, mes, def, pools, conns>>
+  /\ UNCHANGED <<alive, closed, mes, def, pools, conns, pmes>>
 
 Rpc(n) ==
   /\ alive /\ ~closed
@@ -118,20 +120,20 @@ Rpc(n) ==
          e == cur[CHOOSE i \in S : TRUE].e
      IN Commit([BaseEv("rpc") EXCEPT !.name = n, !.res = IF e \in up THEN "OK" ELSE "ERR", !.srv = IF e \in up THEN e ELSE "",
                                      !.pools = SetToSeq(pools)], [op |-> "rpc", name |-> n])
-  /\ UNCHANGED mvars
+  /\ UNCHANGED <<mvars, pmes>>
 
 \* the clock advances: without recovery timeout / switching delay nothing is pending, routes stay
 Tick(n) ==
   /\ alive /\ ~closed
   /\ Commit([BaseEv("tick") EXCEPT !.n = n, !.pools = SetToSeq(pools)], [op |-> "tick", n |-> n])
-  /\ UNCHANGED mvars
+  /\ UNCHANGED <<mvars, pmes>>
 
 Close ==
   /\ alive /\ ~closed
   /\ closed' = TRUE
   /\ conns' = [i \in DOMAIN conns |-> [conns[i] EXCEPT !.shut = TRUE]]
   /\ Commit([BaseEv("close") EXCEPT !.conns = conns', !.pools = SetToSeq(pools)], [op |-> "close"])
-  /\ UNCHANGED <<alive, mes, def, pools, up, cur>>
+  /\ UNCHANGED <<alive, mes, def, pools, up, cur, pmes>>
 
 Next ==
   /\ Len(hist) < MaxDepth
@@ -153,7 +155,9 @@ TypeOK ==
   /\ alive => Len(cur) = Cardinality(Names(mes))
 GhostAgrees == alive /\ ~closed => (g.cur = cur /\ g.mes = mes /\ g.def = def /\ g.up \cap Endpoints = up)
 
-View == <<mvars>>
+\* the previously accepted option set is part of the view: two histories that reach the same mechanism state from different
+\* configurations are both extended (a broken implementation may differ only along one of them, e.g. after a list lost its tail)
+View == <<mvars, pmes>>
 EmitBfs == PrintT(<<"SCRIPT", ToJson(hist)>>)
 EmitSim == Len(hist) < MaxDepth \/ PrintT(<<"SCRIPT", ToJson(hist)>>)
 =============================================================================
